@@ -51,6 +51,10 @@ CHECKS = {
  'C06': dict(cat='exploration', technique='bounded-exhaustive enumeration of callables (kind x arity x trailing-default count x passing mode x return shape x scope); .m guards and call sites (mini-MATLAB AST) and C++ routine bodies compared with a reference marshalling model',
              text='Every signature with arity 0..3 (4), every trailing default count, one (two) deviating parameter(s) over 16 passing modes, 13 return shapes, as method / static / function / constructor, in namespace gt and (subset/all) at global scope and two namespaces deep: arities offered must be exactly n..n-k; per arity the .m guard must test the count and the MATLAB class of each argument and pass the arguments/outputs as the return shape requires; the C++ routine must check the same count, unwrap parameter i from in[i(+1)] with the declared passing mode, call the declared entity with the arguments in order followed by the omitted defaults verbatim, and wrap the result for the declared return type.',
              note='Text-level check of both sides; executing a gateway is C11. Conventions of matlab.h as listed in the evidence assumptions.', ref='2/C06'),
+
+ 'C16': dict(cat='exploration', technique='bounded-exhaustive enumeration of file splits x file endings x stems/extensions and of script option combinations; library outputs compared with each other, scripts run as subprocesses and compared byte for byte with the API, compositions compiled, linked and imported',
+             text='All splits of a 4-item declaration sequence into 1..3 files x 8 file endings (no newline, line/block comment, CRLF, ...) x extensions x plain/underscore/dotted stems: the pybind main output must declare and call one initialiser per extra file in order and otherwise equal wrapping the main text; wrap_submodule must write exactly <stem>.cpp containing the initialiser definition around what wrapping the text alone yields, touching nothing else; MATLAB wrap(list) must equal wrap(single concatenated file); 108 script option combinations as real subprocesses must equal the library API byte for byte; 18 (48) main+parts compositions are compiled, linked and imported.',
+             note='Mock library of C04 for the linked compositions; declarations of different files are independent.', ref='2/C16'),
 }
 NOT_YET = 'check not built yet in this session (see DESIGN.md for the planned exhaustive exploration)'
 
